@@ -1,0 +1,5 @@
+//go:build !verif
+
+package generic
+
+func verifYield(point string) {}
